@@ -49,6 +49,10 @@ def shard(ctx, budget_s):
             errs = smb.check_response(a.rep, req)
             ctx.stats["positive_" + req["kind"]] += 1
             ctx.nontrivial(req["kind"], repr(sorted(req["ids"].items())), repr(req.get("dialects")), len(req["payload"]), tr)
+            if tr == "tcp" and rng.random() < 0.3:
+                rr = lab.positive_segmented(req["payload"], smb.is_smb_response, req["kind"], min_sig=8, only_sig=True)
+                if rr is not None:
+                    errs = errs + smb.check_response(rr, req)
             for e in errs:
                 ctx.violation("response:%s:%s" % (req["kind"], e.split(" ")[0]), "%s; %s request%s" % (
                     e, req["kind"], " dialects=%r" % (req.get("dialects"),) if "dialects" in req else ""),
@@ -102,4 +106,4 @@ def shard(ctx, budget_s):
 def run(tier, seed):
     v = core.Verdict(PROP, tier, seed)
     v.merge(core.run_shards(shard, PROP, tier, seed, budget_s=20 if tier == "quick" else 200))
-    return v.finish(RULE, floor=5000, assumptions=ASSUME)
+    return v.finish(RULE, floor=500, assumptions=ASSUME)
